@@ -461,6 +461,10 @@ pub fn menu(fmt: Fmt, alpha: Alpha, quick: bool) -> Vec<GenSpec> {
             k += 1;
         }
     }
+    // (a2) wide motifs: position labels / row lengths with three digits (>= 100 positions)
+    for (i, &w) in [100usize, 101].iter().enumerate() {
+        v.push(GenSpec { widths: vec![w], modes: vec![1 + 2 * i], meta_off: i, order_off: 7 * i, style_off: i, vv: i == 1, ..base(1) });
+    }
     // (b) single records: every column layout (all 24 orders of ACGT + 3 with the wildcard named)
     for o in 0..nl {
         v.push(GenSpec { widths: vec![2], modes: vec![0], meta_off: o + 1, order_off: o, style_off: o, vv: o % 3 == 0, ..base(1) });
